@@ -84,9 +84,11 @@ class Check:
             r["maxd"] = rng.choice([0, 0, 0, 1, 2, 3, rng.randint(0, maxlvl + 2)])
             r["maxword"] = rng.choice(["maxdepth", "depth"])
             r["mode"] = rng.choice(["", "bfs", "dfs", "dfs"])
+            r["ign"] = rng.choice(["", "", "", "", "hg", "docker", "git", "nogit nohg"])  # no ignore file exists: must change nothing
             if single_default:
                 r["mind"] = r["maxd"] = 0
                 r["mode"] = ""
+                r["ign"] = ""
             roots.append(r)
         cwd = ""
         if not single_default and rng.random() < 0.2 and "/" not in roots[0]["top"]:
@@ -95,6 +97,12 @@ class Check:
             for r in roots[1:]:
                 r["sp"] = {"kind": rng.choice(["updir", "abs"])}
         cls, plan = gen.gen_env(rng, world)
+        if rng.random() < 0.2:
+            # link counts of directories as other file systems report them (1 on btrfs/FUSE, 2 on CIFS/iso9660, anything on overlays)
+            v = rng.choice([1, 2, 2, 3, 7])
+            for n in world["nodes"]:
+                if n["type"] == "dir" and rng.random() < 0.8:
+                    plan.setdefault("stat", {}).setdefault(n["path"], {})["nlink"] = v
         multidev = False
         if rng.random() < 0.25 and len(dirs) >= 2:
             # a second device: one sub-tree (or a whole root) reports another st_dev and inode numbers
@@ -133,8 +141,8 @@ class Check:
                 c = copy.deepcopy(case)
                 del c["roots"][i]
                 yield c
-            for k, v in (("mind", 0), ("maxd", 0), ("mode", "")):
-                if r[k] != v:
+            for k, v in (("mind", 0), ("maxd", 0), ("mode", ""), ("ign", "")):
+                if r.get(k, v) != v:
                     c = copy.deepcopy(case)
                     c["roots"][i][k] = v
                     yield c
@@ -162,6 +170,8 @@ class Check:
             mode = self.mode_of(r, flip)
             if mode != "bfs" or r["mode"] == "bfs" or flip:
                 s += " " + mode
+            if r.get("ign"):
+                s += " " + r["ign"]
             parts.append(s)
         q = case.get("select_word", "") + "path"
         if parts:
